@@ -546,6 +546,7 @@ fn update_run(f: &Fields, inject: bool) -> UpdateRun {
     for (i, sc) in scripts.iter().enumerate() {
         let orig = Shared::from_data(file.clone());
         let reb = Shared::from_data(Vec::new());
+        orig.0.borrow_mut().rfrag = num(f, "rfrag", 0);
         if let Some(at) = failat {
             if i == fstep {
                 let only = get(f, "fonly");
@@ -602,7 +603,7 @@ fn update_run(f: &Fields, inject: bool) -> UpdateRun {
     run
 }
 
-/// `update file=HEX edits=s1|s2|…  [path=1] [failat=N fkind=perm|once|intr|short fonly=wfsr fstep=K ftarget=orig|rebuilt]`
+/// `update file=HEX edits=s1|s2|…  [path=1] [rfrag=K: the original delivers at most K bytes per read] [failat=N fkind=perm|once|intr|short fonly=wfsr fstep=K ftarget=orig|rebuilt]`
 pub fn update(f: &Fields) -> String {
     let run = update_run(f, true);
     let mut out = format!(
